@@ -3,6 +3,12 @@ use crate::rt::{Acc, CheckMeta, Ctx};
 pub mod c01;
 pub mod c02;
 pub mod c03;
+pub mod c04;
+pub mod c05;
+pub mod c06;
+pub mod c07;
+pub mod c08;
+pub mod vaults;
 pub mod pools;
 
 pub fn dispatch(ctx: &Ctx) -> Option<(CheckMeta, Acc)> {
@@ -10,6 +16,11 @@ pub fn dispatch(ctx: &Ctx) -> Option<(CheckMeta, Acc)> {
         "C01" => Some(c01::run(ctx)),
         "C02" => Some(c02::run(ctx)),
         "C03" => Some(c03::run(ctx)),
+        "C04" => Some(c04::run(ctx)),
+        "C05" => Some(c05::run(ctx)),
+        "C06" => Some(c06::run(ctx)),
+        "C07" => Some(c07::run(ctx)),
+        "C08" => Some(c08::run(ctx)),
         _ => None,
     }
 }
